@@ -117,6 +117,37 @@ def run(R):
         if not cnt:
             R.viol("C15.vault.max", "sort-key", "the version sort is not keyed by Scratchpad::count", gv, gv.lines[0])
         R.inst("C15.vault.max", "K10 polarity", "versions ordered by count(); last (= highest) is taken", 1, cnt)
+        # exact predicates of the two selection closures (truth tables): kept ⇔ owned by the requested key ∧ validly signed;
+        # latest ⇔ count() == the maximum
+        from rules import closure_truth_table, closures_passed
+        okt, nt = True, 0
+        for blk in gv.blocks:
+            t = blk["term"]
+            if t["k"] != "call" or blk["cleanup"]:
+                continue
+            nc = t["ncallee"] or ""
+            is_retain = nc.endswith("Vec::retain")
+            is_filter = (t["ngen"] or "").endswith("iterator::Iterator::filter")
+            if not (is_retain or is_filter):
+                continue
+            for cl in closures_passed(F, gv, t):
+                names = {x["ncallee"] for x in cl.calls}
+                if is_retain and (PAD + "::is_valid") in names:
+                    nt += 1
+                    tt = closure_truth_table(cl, lambda b, c: "A", call_atoms={PAD + "::is_valid": "V"})
+                    if tt is None or any(v != (dict(k).get("A", False) and dict(k).get("V", False)) for k, v in tt[1].items()):
+                        okt = False
+                        R.viol("C15.vault.split.exact", "retain-predicate", "the split candidates are not kept exactly when owned by the requested key and validly signed", cl, cl.lines[0])
+                if is_filter and (PAD + "::count") in names:
+                    nt += 1
+                    tt = closure_truth_table(cl, lambda b, c: "E")
+                    if tt is None or any(v != dict(k).get("E", False) for k, v in tt[1].items()):
+                        okt = False
+                        R.viol("C15.vault.split.exact", "latest-predicate", "the latest versions are not selected exactly by count() == the maximum counter", cl, cl.lines[0])
+        if nt < 2:
+            okt = False
+            R.viol("C15.vault.split.exact", "anchor-missing:selection-closures", "expected the retain(owner ∧ valid) and filter(count == max) closures in get_vault_from_network (found %d)" % nt, gv, gv.lines[0])
+        R.inst("C15.vault.split.exact", "K10 polarity", "retain ⇔ owned ∧ valid; latest ⇔ count == max", nt, okt)
     fd = R.body("C15.decrypt", FD + "::{closure#0}")
     if fd is not None:
         prep(fd)
